@@ -74,7 +74,7 @@ theorem GateOK.mono {n m : Nat} {g : AGate} (h : GateOK n g) (hnm : n ≤ m) : G
   ⟨h.1, h.2.1, fun w hw => Nat.lt_of_lt_of_le (h.2.2.1 w hw) hnm, h.2.2.2⟩
 
 /-- state invariant of the compiler: gate lists well formed, every stored qubit index below
-`numQubits`, ancilla set duplicate-free, names of ancilla qubits are scratch names -/
+`numQubits`, ancilla set duplicate-free, names of ancilla qubits are scratch names (`anc_…`) -/
 structure Good (s : CState) : Prop where
   gates_ok : ∀ g ∈ s.qc.gates.toList, GateOK s.qc.numQubits g
   comp_ok : ∀ g ∈ s.qc.gatesComputed.toList, GateOK s.qc.numQubits g
@@ -85,11 +85,13 @@ structure Good (s : CState) : Prop where
   marked_lt : ∀ a ∈ s.qc.marked, a < s.qc.numQubits
   anc_nodup : s.qc.anc.Nodup
   anc_named : ∀ p ∈ s.qc.qmap, p.2 ∈ s.qc.anc → scratchName p.1 = true
+  kept_lt : ∀ a ∈ s.qc.kept, a < s.qc.numQubits
 
-/-- every ancilla / free / marked index is at least `n` (with `n` the number of argument qubits:
+/-- every ancilla / free / marked / kept index is at least `n` (with `n` the number of argument qubits:
 no argument qubit is ever handed out as scratch space) -/
 def ScratchGe (n : Nat) (s : CState) : Prop :=
-  (∀ a ∈ s.qc.anc, n ≤ a) ∧ (∀ a ∈ s.qc.free, n ≤ a) ∧ (∀ a ∈ s.qc.marked, n ≤ a)
+  (∀ a ∈ s.qc.anc, n ≤ a) ∧ (∀ a ∈ s.qc.free, n ≤ a) ∧ (∀ a ∈ s.qc.marked, n ≤ a) ∧
+    (∀ a ∈ s.qc.kept, n ≤ a)
 
 /-- `s'` comes from `s` by steps that keep the invariant, only add qubits, never delete a
 non-scratch name and rebind only names in `B` or reserved names -/
@@ -269,6 +271,7 @@ structure Appended (cls : GClass) (wires : List Nat) (s s' : CState) : Prop wher
   anc : s'.qc.anc = s.qc.anc
   free : s'.qc.free = s.qc.free
   marked : s'.qc.marked = s.qc.marked
+  kept : s'.qc.kept = s.qc.kept
   expq : s'.expq = s.expq
   inputs : s'.inputs = s.inputs
 
@@ -286,7 +289,7 @@ theorem appendG_run {cls : GClass} {wires : List Nat} {gid : Option (Nat × Nat)
       obtain ⟨u, s2, hm, rfl, rfl⟩ := h
       have := modQC_run hm
       subst this
-      refine ⟨herr, ⟨_, rfl, rfl, rfl, ?_⟩, rfl, rfl, rfl, rfl, rfl, rfl, rfl⟩
+      refine ⟨herr, ⟨_, rfl, rfl, rfl, ?_⟩, rfl, rfl, rfl, rfl, rfl, rfl, rfl, rfl⟩
       dsimp only
       split
       · exact Or.inl rfl
@@ -295,7 +298,7 @@ theorem appendG_run {cls : GClass} {wires : List Nat} {gid : Option (Nat × Nat)
       obtain ⟨u, s2, hm, rfl, rfl⟩ := h
       have := modQC_run hm
       subst this
-      refine ⟨herr, ⟨_, rfl, rfl, rfl, ?_⟩, rfl, rfl, rfl, rfl, rfl, rfl, rfl⟩
+      refine ⟨herr, ⟨_, rfl, rfl, rfl, ?_⟩, rfl, rfl, rfl, rfl, rfl, rfl, rfl, rfl⟩
       dsimp only
       split
       · exact Or.inl rfl
@@ -320,8 +323,9 @@ theorem Appended.step {B : String → Prop} {cls : GClass} {wires : List Nat} {s
   have hgok : GateOK s.qc.numQubits g := by
     refine ⟨by rw [hgc]; exact hc, by rw [hgw]; exact hn, by rw [hgw]; exact hw, by rw [hgw, hgc]; exact hl⟩
   apply Step.of_same _ ha.nq ha.qmap ha.inputs
-    (fun n h => ⟨by rw [ha.anc]; exact h.1, by rw [ha.free]; exact h.2.1, by rw [ha.marked]; exact h.2.2⟩)
-  refine ⟨?_, ?_, ?_, ?_, ?_, ?_, ?_, ?_, ?_⟩
+    (fun n h => ⟨by rw [ha.anc]; exact h.1, by rw [ha.free]; exact h.2.1, by rw [ha.marked]; exact h.2.2.1,
+      by rw [ha.kept]; exact h.2.2.2⟩)
+  refine ⟨?_, ?_, ?_, ?_, ?_, ?_, ?_, ?_, ?_, ?_⟩
   · rw [ha.nq, hgates]
     intro g' hg'
     simp only [Array.toList_push, List.mem_append, List.mem_singleton] at hg'
@@ -344,6 +348,7 @@ theorem Appended.step {B : String → Prop} {cls : GClass} {wires : List Nat} {s
   · rw [ha.nq, ha.marked]; exact hg.marked_lt
   · rw [ha.anc]; exact hg.anc_nodup
   · rw [ha.anc, ha.qmap]; exact hg.anc_named
+  · rw [ha.nq, ha.kept]; exact hg.kept_lt
 
 theorem run_discard_ok {α} {m : M α} {u : Unit} {s s' : CState} :
     (discard m).run s = .ok (u, s') ↔ ∃ a, m.run s = .ok (a, s') := by
@@ -382,8 +387,8 @@ theorem mcx_ok {B : String → Prop} {cs : List Nat} {t : Nat} {u : Unit} {s s' 
 theorem Good.of_eq {s s' : CState} (hg : Good s) (hn : s'.qc.numQubits = s.qc.numQubits)
     (h1 : s'.qc.gates = s.qc.gates) (h2 : s'.qc.gatesComputed = s.qc.gatesComputed)
     (h3 : s'.qc.qmap = s.qc.qmap) (h4 : s'.expq = s.expq) (h5 : s'.qc.anc = s.qc.anc)
-    (h6 : s'.qc.free = s.qc.free) (h7 : s'.qc.marked = s.qc.marked) : Good s' := by
-  refine ⟨?_, ?_, ?_, ?_, ?_, ?_, ?_, ?_, ?_⟩
+    (h6 : s'.qc.free = s.qc.free) (h7 : s'.qc.marked = s.qc.marked) (h8 : s'.qc.kept = s.qc.kept) : Good s' := by
+  refine ⟨?_, ?_, ?_, ?_, ?_, ?_, ?_, ?_, ?_, ?_⟩
   · rw [hn, h1]; exact hg.gates_ok
   · rw [hn, h2]; exact hg.comp_ok
   · rw [hn, h3]; exact hg.qmap_lt
@@ -393,11 +398,12 @@ theorem Good.of_eq {s s' : CState} (hg : Good s) (hn : s'.qc.numQubits = s.qc.nu
   · rw [hn, h7]; exact hg.marked_lt
   · rw [h5]; exact hg.anc_nodup
   · rw [h5, h3]; exact hg.anc_named
+  · rw [hn, h8]; exact hg.kept_lt
 
 theorem event_ok {B : String → Prop} {e : String} {u : Unit} {s s' : CState}
     (h : (event e).run s = .ok (u, s')) (hg : Good s) : Step B s s' := by
   have := event_run h; subst this
-  exact Step.of_same (hg.of_eq rfl rfl rfl rfl rfl rfl rfl rfl) rfl rfl rfl (fun _ h => h)
+  exact Step.of_same (hg.of_eq rfl rfl rfl rfl rfl rfl rfl rfl rfl) rfl rfl rfl (fun _ h => h)
 
 theorem addQubit_run {name : String} {a : Nat} {s s' : CState} (h : (addQubit name).run s = .ok (a, s')) :
     a = s.qc.numQubits ∧ s' = { s with qc := { s.qc with qmap := dictSet s.qc.qmap name s.qc.numQubits,
@@ -414,7 +420,7 @@ theorem addQubit_ok {B : String → Prop} {name : String} {a : Nat} {s s' : CSta
       (∀ p ∈ s'.qc.qmap, p.2 = a → p.1 = name) := by
   obtain ⟨rfl, rfl⟩ := addQubit_run h
   have hle : s.qc.numQubits ≤ s.qc.numQubits + 1 := Nat.le_succ _
-  refine ⟨⟨⟨?_, ?_, ?_, ?_, ?_, ?_, ?_, ?_, ?_⟩, hle, rfl, ?_, ?_, fun _ _ h => h⟩, rfl, Nat.lt_succ_self _, rfl, ?_⟩
+  refine ⟨⟨⟨?_, ?_, ?_, ?_, ?_, ?_, ?_, ?_, ?_, ?_⟩, hle, rfl, ?_, ?_, fun _ _ h => h⟩, rfl, Nat.lt_succ_self _, rfl, ?_⟩
   · exact fun g hg' => (hg.gates_ok g hg').mono hle
   · exact fun g hg' => (hg.comp_ok g hg').mono hle
   · intro p hp
@@ -430,6 +436,7 @@ theorem addQubit_ok {B : String → Prop} {name : String} {a : Nat} {s s' : CSta
     rcases mem_dictSet hp with hp | rfl
     · exact hg.anc_named p hp ha
     · exact absurd (hg.anc_lt _ ha) (Nat.lt_irrefl _)
+  · exact fun p hp => Nat.lt_succ_of_lt (hg.kept_lt p hp)
   · intro x _ hx
     by_cases hxn : x = name
     · subst hxn; show (dictGet? (dictSet _ _ _) _).isSome = true; rw [dictGet?_dictSet_self]; rfl
@@ -477,7 +484,7 @@ theorem setIns_nodup {l : List Nat} {x : Nat} (h : l.Nodup) : (setIns l x).Nodup
     exact hc (by simpa using ha)
 
 theorem scratch_anc (k : Nat) : scratchName s!"anc_{k}" = true := by
-  unfold scratchName; rw [ancLike_anc]; exact Bool.or_true _
+  unfold scratchName; exact ancLike_anc k
 
 theorem getFreeAncilla_ok {B : String → Prop} {a : Nat} {s s' : CState}
     (h : getFreeAncilla.run s = .ok (a, s')) (hg : Good s) :
@@ -493,7 +500,7 @@ theorem getFreeAncilla_ok {B : String → Prop} {a : Nat} {s s' : CState}
     simp only [run_bind_ok] at h
     obtain ⟨u, s1, hset, h⟩ := h
     have := run_set_ok.mp hset; subst this
-    have hg1 : Good { s0 with choices := rest } := hg.of_eq rfl rfl rfl rfl rfl rfl rfl rfl
+    have hg1 : Good { s0 with choices := rest } := hg.of_eq rfl rfl rfl rfl rfl rfl rfl rfl rfl
     split at h
     · simp only [run_bind_ok] at h
       obtain ⟨i, s2, hadd, u2, s3, hm, hif⟩ := h
@@ -508,7 +515,7 @@ theorem getFreeAncilla_ok {B : String → Prop} {a : Nat} {s s' : CState}
         (Or.inr (reserved_of_scratch (scratch_anc _)))
       have := modQC_run hm; subst this
       have hg2 := hst.good
-      refine ⟨⟨⟨hg2.gates_ok, hg2.comp_ok, hg2.qmap_lt, hg2.expq_lt, ?_, hg2.free_lt, hg2.marked_lt, ?_, ?_⟩,
+      refine ⟨⟨⟨hg2.gates_ok, hg2.comp_ok, hg2.qmap_lt, hg2.expq_lt, ?_, hg2.free_lt, hg2.marked_lt, ?_, ?_, hg2.kept_lt⟩,
         hst.nq_le, hst.inputs_eq, hst.keys_keep, hst.qmap_keep, ?_⟩, hilt⟩
       · intro x hx
         rcases mem_setIns hx with hx | rfl
@@ -521,7 +528,7 @@ theorem getFreeAncilla_ok {B : String → Prop} {a : Nat} {s s' : CState}
         · rw [hnm p hp hpa]; exact scratch_anc _
       · intro n hn hS
         have hS2 := hst.ge_keep n hn hS
-        refine ⟨fun x hx => ?_, hS2.2.1, hS2.2.2⟩
+        refine ⟨fun x hx => ?_, hS2.2.1, hS2.2.2.1, hS2.2.2.2⟩
         rcases mem_setIns hx with hx | rfl
         · exact hS2.1 x hx
         · rw [hi]; exact hn
@@ -536,46 +543,68 @@ theorem getFreeAncilla_ok {B : String → Prop} {a : Nat} {s s' : CState}
         have := modQC_run hm; subst this
         have hcf : a ∈ s0.qc.free := by simpa using hc
         refine ⟨Step.of_same ⟨hg.gates_ok, hg.comp_ok, hg.qmap_lt, hg.expq_lt, hg.anc_lt, ?_, hg.marked_lt,
-          hg.anc_nodup, hg.anc_named⟩ rfl rfl rfl
-          (fun n h => ⟨h.1, fun x hx => h.2.1 x (List.mem_of_mem_erase hx), h.2.2⟩), hg.free_lt a hcf⟩
+          hg.anc_nodup, hg.anc_named, hg.kept_lt⟩ rfl rfl rfl
+          (fun n h => ⟨h.1, fun x hx => h.2.1 x (List.mem_of_mem_erase hx), h.2.2.1, h.2.2.2⟩), hg.free_lt a hcf⟩
         exact fun x hx => hg.free_lt x (List.mem_of_mem_erase hx)
 
 /-! ### marks, expression cache, map_qubit -/
 
+theorem mem_foldl_setIns {l f : List Nat} {x : Nat} (h : x ∈ l.foldl setIns f) : x ∈ f ∨ x ∈ l := by
+  induction l generalizing f with
+  | nil => exact Or.inl h
+  | cons a l ih =>
+    rcases ih h with h' | h'
+    · rcases mem_setIns h' with h'' | rfl
+      · exact Or.inl h''
+      · exact Or.inr List.mem_cons_self
+    · exact Or.inr (List.mem_cons_of_mem _ h')
+
 theorem markAncilla_ok {B : String → Prop} {w : Nat} {u : Unit} {s s' : CState}
     (h : (markAncilla w).run s = .ok (u, s')) (hg : Good s) : Step B s s' := by
   unfold markAncilla at h
-  dsimp only at h
   obtain ⟨qc, s1, hq, h⟩ := run_bind_ok.mp h
   obtain ⟨rfl, rfl⟩ := getQC_run hq
-  have fin : ∀ {s2 s3 : CState} {u : Unit}, Step B s1 s2 → s2.qc.anc = s1.qc.anc →
-      (modQC fun qc => { qc with marked := setIns qc.marked w }).run s2 = .ok (u, s3) →
-      w ∈ s1.qc.anc → Step B s1 s3 := by
-    intro s2 s3 u hst hanc hm hc
-    have hw : w < s1.qc.numQubits := hg.anc_lt w hc
-    have := modQC_run hm; subst this
-    have hg2 := hst.good
-    refine hst.trans (Step.of_same ⟨hg2.gates_ok, hg2.comp_ok, hg2.qmap_lt, hg2.expq_lt, hg2.anc_lt,
-      hg2.free_lt, ?_, hg2.anc_nodup, hg2.anc_named⟩ rfl rfl rfl ?_)
-    · intro x hx
-      rcases mem_setIns hx with hx | rfl
-      · exact hg2.marked_lt x hx
-      · exact Nat.lt_of_lt_of_le hw hst.nq_le
-    · intro n hS
-      refine ⟨hS.1, hS.2.1, fun x hx => ?_⟩
-      rcases mem_setIns hx with hx | rfl
-      · exact hS.2.2 x hx
-      · exact hS.1 _ (by rw [hanc]; exact hc)
   split at h
   · next hc =>
-    have hc' : w ∈ s1.qc.anc := by simpa using hc
-    split at h
-    · obtain ⟨u1, s2, hev, hm⟩ := run_bind_ok.mp h
-      have hst := event_ok (B := B) hev hg
-      have := event_run hev; subst this
-      exact fin hst rfl hm hc'
-    · exact fin (Step.refl hg) rfl h hc'
+    simp only [Bool.and_eq_true] at hc
+    have hc' : w ∈ s1.qc.anc := by simpa using hc.1
+    have hw : w < s1.qc.numQubits := hg.anc_lt w hc'
+    have := modQC_run h; subst this
+    refine Step.of_same ⟨hg.gates_ok, hg.comp_ok, hg.qmap_lt, hg.expq_lt, hg.anc_lt,
+      hg.free_lt, ?_, hg.anc_nodup, hg.anc_named, hg.kept_lt⟩ rfl rfl rfl ?_
+    · intro x hx
+      rcases mem_setIns hx with hx | rfl
+      · exact hg.marked_lt x hx
+      · exact hw
+    · intro n hS
+      refine ⟨hS.1, hS.2.1, fun x hx => ?_, hS.2.2.2⟩
+      rcases mem_setIns hx with hx | rfl
+      · exact hS.2.2.1 x hx
+      · exact hS.1 _ hc'
   · obtain ⟨_, rfl⟩ := run_pure_ok.mp h; exact Step.refl hg
+
+/-- `keep_ancillas` -/
+theorem keepAncillas_ok {B : String → Prop} {u : Unit} {s s' : CState}
+    (h : keepAncillas.run s = .ok (u, s')) (hg : Good s) : Step B s s' := by
+  unfold keepAncillas at h
+  have := modQC_run h; subst this
+  have hmem : ∀ x ∈ (s.qc.anc.filter (fun a => !s.qc.free.contains a)).foldl setIns s.qc.kept,
+      x ∈ s.qc.kept ∨ x ∈ s.qc.anc := by
+    intro x hx
+    rcases mem_foldl_setIns hx with h' | h'
+    · exact Or.inl h'
+    · exact Or.inr (List.mem_filter.mp h').1
+  refine Step.of_same ⟨hg.gates_ok, hg.comp_ok, hg.qmap_lt, hg.expq_lt, hg.anc_lt,
+    hg.free_lt, (by intro a ha; cases ha), hg.anc_nodup, hg.anc_named, ?_⟩ rfl rfl rfl ?_
+  · intro x hx
+    rcases hmem x hx with h' | h'
+    · exact hg.kept_lt x h'
+    · exact hg.anc_lt x h'
+  · intro n hS
+    refine ⟨hS.1, hS.2.1, (by intro a ha; cases ha), fun x hx => ?_⟩
+    rcases hmem x hx with h' | h'
+    · exact hS.2.2.2 x h'
+    · exact hS.1 x h'
 
 theorem markAll_ok {B : String → Prop} : ∀ (ws : List Nat) {u : Unit} {s s' : CState},
     (markAll ws).run s = .ok (u, s') → Good s → Step B s s'
@@ -594,7 +623,7 @@ theorem expqRemove_ok {B : String → Prop} {qs : List Nat} {u : Unit} {s s' : C
   unfold expqRemove at h
   have := run_modify_ok.mp h; subst this
   refine Step.of_same ⟨hg.gates_ok, hg.comp_ok, hg.qmap_lt, ?_, hg.anc_lt, hg.free_lt, hg.marked_lt,
-    hg.anc_nodup, hg.anc_named⟩ rfl rfl rfl (fun _ h => h)
+    hg.anc_nodup, hg.anc_named, hg.kept_lt⟩ rfl rfl rfl (fun _ h => h)
   exact fun p hp => hg.expq_lt p (List.mem_filter.mp hp).1
 
 theorem expqSet_ok {B : String → Prop} {e : BExp} {q : Nat} {u : Unit} {s s' : CState}
@@ -609,7 +638,7 @@ theorem expqSet_ok {B : String → Prop} {e : BExp} {q : Nat} {u : Unit} {s s' :
   refine st1.trans ?_
   split
   · refine Step.of_same ⟨hg1.gates_ok, hg1.comp_ok, hg1.qmap_lt, ?_, hg1.anc_lt, hg1.free_lt, hg1.marked_lt,
-      hg1.anc_nodup, hg1.anc_named⟩ rfl rfl rfl (fun _ h => h)
+      hg1.anc_nodup, hg1.anc_named, hg1.kept_lt⟩ rfl rfl rfl (fun _ h => h)
     intro p hp
     simp only [List.mem_map] at hp
     obtain ⟨p0, hp0, rfl⟩ := hp
@@ -617,7 +646,7 @@ theorem expqSet_ok {B : String → Prop} {e : BExp} {q : Nat} {u : Unit} {s s' :
     · exact hq1
     · exact hg1.expq_lt p0 hp0
   · refine Step.of_same ⟨hg1.gates_ok, hg1.comp_ok, hg1.qmap_lt, ?_, hg1.anc_lt, hg1.free_lt, hg1.marked_lt,
-      hg1.anc_nodup, hg1.anc_named⟩ rfl rfl rfl (fun _ h => h)
+      hg1.anc_nodup, hg1.anc_named, hg1.kept_lt⟩ rfl rfl rfl (fun _ h => h)
     intro p hp
     simp only [List.mem_append, List.mem_singleton] at hp
     rcases hp with hp | rfl
@@ -649,8 +678,8 @@ theorem mapQubit_finish {B : String → Prop} {name : String} {index : Nat} {s1 
   have := modQC_run hm; subst this
   refine ⟨?_, dictGet?_dictSet_self⟩
   have hi2 : index < s2.qc.numQubits := by rw [hn2]; exact hi
-  refine ⟨⟨hg2.gates_ok, hg2.comp_ok, ?_, hg2.expq_lt, hg2.anc_lt, hg2.free_lt, hg2.marked_lt, hg2.anc_nodup, ?_⟩,
-    Nat.le_of_eq hn2.symm, hin2, ?_, ?_, fun n _ h => hge2 n h⟩
+  refine ⟨⟨hg2.gates_ok, hg2.comp_ok, ?_, hg2.expq_lt, hg2.anc_lt, hg2.free_lt, hg2.marked_lt, hg2.anc_nodup, ?_,
+    hg2.kept_lt⟩, Nat.le_of_eq hn2.symm, hin2, ?_, ?_, fun n _ h => hge2 n h⟩
   · intro p hp
     rcases mem_dictSet hp with hp | rfl
     · exact hg2.qmap_lt p hp
@@ -698,14 +727,14 @@ theorem mapQubit_ok {B : String → Prop} {name : String} {index : Nat} {promote
       refine mapQubit_finish hm3 hi hb ⟨hg.gates_ok, hg.comp_ok,
         fun p hp => hg.qmap_lt p (List.mem_filter.mp hp).1, hg.expq_lt,
         fun a ha => hg.anc_lt a (List.mem_of_mem_erase ha), hg.free_lt, hg.marked_lt,
-        hg.anc_nodup.erase _, ?_⟩ rfl rfl (fun h => absurd h hne) ?_
+        hg.anc_nodup.erase _, ?_, hg.kept_lt⟩ rfl rfl (fun h => absurd h hne) ?_
         (fun n h => ⟨fun a ha => h.1 a (List.mem_of_mem_erase ha), h.2.1, h.2.2⟩)
       · exact fun p hp ha => hg.anc_named p (List.mem_filter.mp hp).1 (List.mem_of_mem_erase ha)
       · intro x hx
         exact dictGet?_filter_ne (by rintro rfl; rw [hks] at hx; cases hx)
     · refine mapQubit_finish hmatch hi hb ⟨hg.gates_ok, hg.comp_ok, hg.qmap_lt, hg.expq_lt,
         fun a ha => hg.anc_lt a (List.mem_of_mem_erase ha), hg.free_lt, hg.marked_lt,
-        hg.anc_nodup.erase _, ?_⟩ rfl rfl (fun h => absurd h hne) (fun _ _ => rfl)
+        hg.anc_nodup.erase _, ?_, hg.kept_lt⟩ rfl rfl (fun h => absurd h hne) (fun _ _ => rfl)
         (fun n h => ⟨fun a ha => h.1 a (List.mem_of_mem_erase ha), h.2.1, h.2.2⟩)
       exact fun p hp ha => hg.anc_named p hp (List.mem_of_mem_erase ha)
   · next hc =>
@@ -738,18 +767,6 @@ theorem cxAll_ok {B : String → Prop} {d : Nat} : ∀ (is : List Nat) {u : Unit
     obtain ⟨u1, s1, h1, h2⟩ := run_bind_ok.mp h
     have st1 : Step B s s1 := cx_ok h1 hg (hi i List.mem_cons_self) hd
     exact st1.trans (cxAll_ok is h2 st1.good (Nat.lt_of_lt_of_le hd st1.nq_le)
-      (fun j hj => Nat.lt_of_lt_of_le (hi j (List.mem_cons_of_mem _ hj)) st1.nq_le))
-
-theorem xAll_ok {B : String → Prop} : ∀ (is : List Nat) {u : Unit} {s s' : CState},
-    (xAll is).run s = .ok (u, s') → Good s → (∀ i ∈ is, i < s.qc.numQubits) → Step B s s'
-  | [], u, s, s', h, hg, _ => by
-    unfold xAll at h
-    obtain ⟨_, rfl⟩ := run_pure_ok.mp h; exact Step.refl hg
-  | i :: is, u, s, s', h, hg, hi => by
-    unfold xAll at h
-    obtain ⟨u1, s1, h1, h2⟩ := run_bind_ok.mp h
-    have st1 : Step B s s1 := xGate_ok h1 hg (hi i List.mem_cons_self)
-    exact st1.trans (xAll_ok is h2 st1.good
       (fun j hj => Nat.lt_of_lt_of_le (hi j (List.mem_cons_of_mem _ hj)) st1.nq_le))
 
 theorem constFalse_ok {B : String → Prop} {a : Nat} {s s' : CState}
@@ -956,7 +973,10 @@ theorem exprSpec_not {B : String → Prop} {x : BExp} (ih : ExprSpec B x) : Expr
         have st : Step B s2 s3 := xGate_ok hx hg hlt
         obtain ⟨rfl, rfl⟩ := run_pure_ok.mp h3
         exact ⟨st, Nat.lt_of_lt_of_le hlt st.nq_le⟩
-    · obtain ⟨eret, s2, he, h2⟩ := run_bind_ok.mp h1
+    · obtain ⟨sh, s1', hsh, k1⟩ := run_bind_ok.mp h1
+      have hs1' := (expqGet?_ok hsh hg).1
+      rw [hs1'] at k1
+      obtain ⟨eret, s2, he, h2⟩ := run_bind_ok.mp k1
       obtain ⟨st1, helt⟩ := ih none none he hg (by intro d hd0; cases hd0) (by intro y hy; cases hy)
       obtain ⟨qc, s3, hq, h3⟩ := run_bind_ok.mp h2
       obtain ⟨rfl, rfl⟩ := getQC_run hq
@@ -1107,7 +1127,78 @@ theorem exprSpec_and {B : String → Prop} {args : List BExp} (ih : ArgsSpec B a
       exact body (st1.trans st2) hdlt (fun r hr => Nat.lt_of_lt_of_le (hel r hr) st2.nq_le) h4
 
 
-theorem orTail_ok {B : String → Prop} {es : List Nat} {dest : Option Nat} {e : BExp} {d a : Nat}
+/-- one binary or `cx acc d; cx i d; mcx [acc, i] d` of the or-chain -/
+theorem orGate_ok {B : String → Prop} {acc i d : Nat} {u : Unit} {s s' : CState}
+    (h : StateT.run (do cx acc d; cx i d; mcx [acc, i] d : M Unit) s = .ok (u, s'))
+    (hg : Good s) (hacc : acc < s.qc.numQubits) (hi : i < s.qc.numQubits) (hd : d < s.qc.numQubits) :
+    Step B s s' := by
+  obtain ⟨u1, s1, h1, k1⟩ := run_bind_ok.mp h
+  have q1 : Step B s s1 := cx_ok h1 hg hacc hd
+  obtain ⟨u2, s2, h2, k2⟩ := run_bind_ok.mp k1
+  have q2 : Step B s1 s2 := cx_ok h2 q1.good (Nat.lt_of_lt_of_le hi q1.nq_le) (Nat.lt_of_lt_of_le hd q1.nq_le)
+  have q12 := q1.trans q2
+  have q3 : Step B s2 s' := mcx_ok k2 q2.good
+    (by intro c hc
+        simp only [List.mem_cons, List.not_mem_nil, or_false] at hc
+        rcases hc with rfl | rfl
+        · exact Nat.lt_of_lt_of_le hacc q12.nq_le
+        · exact Nat.lt_of_lt_of_le hi q12.nq_le)
+    (Nat.lt_of_lt_of_le hd q12.nq_le)
+  exact q12.trans q3
+
+theorem orChain_ok {B : String → Prop} {dest : Nat} : ∀ (rest : List Nat) (acc : Nat) {u : Unit} {s s' : CState},
+    (orChain dest acc rest).run s = .ok (u, s') → Good s → dest < s.qc.numQubits → acc < s.qc.numQubits →
+    (∀ i ∈ rest, i < s.qc.numQubits) → Step B s s'
+  | [], acc, u, s, s', h, hg, _, _, _ => by
+    unfold orChain at h
+    obtain ⟨_, rfl⟩ := run_pure_ok.mp h; exact Step.refl hg
+  | [i], acc, u, s, s', h, hg, hd, hacc, hr => by
+    unfold orChain at h
+    exact orGate_ok h hg hacc (hr i List.mem_cons_self) hd
+  | i :: j :: rest, acc, u, s, s', h, hg, hd, hacc, hr => by
+    unfold orChain at h
+    obtain ⟨d, s1, hf, k1⟩ := run_bind_ok.mp h
+    obtain ⟨q1, hdlt⟩ := getFreeAncilla_ok (B := B) hf hg
+    obtain ⟨u2, s2, hm, k2⟩ := run_bind_ok.mp k1
+    have q2 : Step B s1 s2 := markAncilla_ok hm q1.good
+    have q12 := q1.trans q2
+    have k2' : StateT.run (do
+        (do cx acc d; cx i d; mcx [acc, i] d : M Unit)
+        orChain dest d (j :: rest) : M Unit) s2 = .ok (u, s') := by
+      simpa only [bind_assoc] using k2
+    obtain ⟨u3, s3, hgate, k3⟩ := run_bind_ok.mp k2'
+    have q3 : Step B s2 s3 := orGate_ok hgate q2.good (Nat.lt_of_lt_of_le hacc q12.nq_le)
+      (Nat.lt_of_lt_of_le (hr i List.mem_cons_self) q12.nq_le) (Nat.lt_of_lt_of_le hdlt q2.nq_le)
+    have q123 := q12.trans q3
+    exact q123.trans (orChain_ok (j :: rest) d k3 q3.good (Nat.lt_of_lt_of_le hd q123.nq_le)
+      (Nat.lt_of_lt_of_le hdlt (q2.trans q3).nq_le)
+      (fun x hx => Nat.lt_of_lt_of_le (hr x (List.mem_cons_of_mem _ hx)) q123.nq_le))
+
+theorem orWide_ok {B : String → Prop} {d : Nat} {erets es : List Nat} {u : Unit} {s s' : CState}
+    (h : (orWide d erets es).run s = .ok (u, s')) (hg : Good s) (hd : d < s.qc.numQubits)
+    (hes : ∀ x ∈ es, x < s.qc.numQubits) : Step B s s' := by
+  unfold orWide at h
+  dsimp only at h
+  rcases run_ite_ok.mp h with ⟨_, h⟩ | ⟨hne, h⟩
+  · obtain ⟨_, _, hf, _⟩ := run_bind_ok.mp h
+    exact (run_throw_ok.mp hf).elim
+  · have heq : sortNat (pySetOrder erets) = es := by simpa using hne
+    have hmem : ∀ x ∈ pySetOrder erets, x < s.qc.numQubits := by
+      intro x hx
+      apply hes
+      rw [← heq]
+      unfold sortNat
+      exact List.mem_mergeSort.mpr hx
+    cases ho : pySetOrder erets with
+    | nil =>
+      rw [ho] at h
+      obtain ⟨_, rfl⟩ := run_pure_ok.mp h; exact Step.refl hg
+    | cons a rest =>
+      rw [ho] at h hmem
+      exact orChain_ok rest a h hg hd (hmem a List.mem_cons_self)
+        (fun x hx => hmem x (List.mem_cons_of_mem _ hx))
+
+theorem orTail_ok {B : String → Prop} {erets es : List Nat} {dest : Option Nat} {e : BExp} {d a : Nat}
     {s s' : CState}
     (h : StateT.run (
         if es.length ≤ 2 then do
@@ -1126,10 +1217,7 @@ theorem orTail_ok {B : String → Prop} {es : List Nat} {dest : Option Nat} {e :
                   pure d
                 else pure d
         else do
-          xAll es
-          mcx es d
-          xAll es
-          xGate d
+          orWide d erets es
           markAll es
           if dest.isNone = true then do
               expqSet e d
@@ -1148,22 +1236,10 @@ theorem orTail_ok {B : String → Prop} {es : List Nat} {dest : Option Nat} {e :
       exact ⟨(q1.trans q2).trans q3, ha⟩
     · obtain ⟨q3, ha⟩ := finish_ok (B := B) h1 q1.good hd1
       exact ⟨q1.trans q3, ha⟩
-  · obtain ⟨u1, s1, hx1, h1⟩ := run_bind_ok.mp h
-    have q1 : Step B s s1 := xAll_ok es hx1 hg hes
-    have hes1 : ∀ x ∈ es, x < s1.qc.numQubits := fun c hc => Nat.lt_of_lt_of_le (hes c hc) q1.nq_le
-    have hd1 := Nat.lt_of_lt_of_le hd q1.nq_le
-    obtain ⟨u2, s2, hm, h2⟩ := run_bind_ok.mp h1
-    have q2 : Step B s1 s2 := mcx_ok hm q1.good hes1 hd1
-    have hes2 : ∀ x ∈ es, x < s2.qc.numQubits := fun c hc => Nat.lt_of_lt_of_le (hes1 c hc) q2.nq_le
-    have hd2 := Nat.lt_of_lt_of_le hd1 q2.nq_le
-    obtain ⟨u3, s3, hx2, h3⟩ := run_bind_ok.mp h2
-    have q3 : Step B s2 s3 := xAll_ok es hx2 q2.good hes2
-    have hd3 := Nat.lt_of_lt_of_le hd2 q3.nq_le
-    obtain ⟨u4, s4, hx3, h4⟩ := run_bind_ok.mp h3
-    have q4 : Step B s3 s4 := xGate_ok hx3 q3.good hd3
-    have hd4 := Nat.lt_of_lt_of_le hd3 q4.nq_le
-    obtain ⟨q5, ha⟩ := finish_ok (B := B) h4 q4.good hd4
-    exact ⟨(((q1.trans q2).trans q3).trans q4).trans q5, ha⟩
+  · obtain ⟨u1, s1, hw, h1⟩ := run_bind_ok.mp h
+    have q1 : Step B s s1 := orWide_ok hw hg hd hes
+    obtain ⟨q2, ha⟩ := finish_ok (B := B) h1 q1.good (Nat.lt_of_lt_of_le hd q1.nq_le)
+    exact ⟨q1.trans q2, ha⟩
 
 /-- `if erets.contains d then event "destAmongArgs"` in front of a continuation -/
 theorem destEvent_ok {B : String → Prop} {c : Bool} {k : M Nat} {a : Nat} {s s' : CState}
@@ -1404,16 +1480,6 @@ theorem uncomputeLoop_ok {B : String → Prop} {marked : List Nat} :
         · exact Or.inr List.mem_cons_self
       · exact Or.inr (List.mem_cons_of_mem _ h')
 
-theorem mem_foldl_setIns {l f : List Nat} {x : Nat} (h : x ∈ l.foldl setIns f) : x ∈ f ∨ x ∈ l := by
-  induction l generalizing f with
-  | nil => exact Or.inl h
-  | cons a l ih =>
-    rcases ih h with h' | h'
-    · rcases mem_setIns h' with h'' | rfl
-      · exact Or.inl h''
-      · exact Or.inr List.mem_cons_self
-    · exact Or.inr (List.mem_cons_of_mem _ h')
-
 theorem uncompute_ok {B : String → Prop} {r : List Nat} {s s' : CState}
     (h : uncompute.run s = .ok (r, s')) (hg : Good s) : Step B s s' := by
   unfold uncompute at h
@@ -1431,7 +1497,7 @@ theorem uncompute_ok {B : String → Prop} {r : List Nat} {s s' : CState}
     have := modQC_run hm; subst this
     have hg2 := st1.good
     refine ⟨⟨hg2.gates_ok, ?_, hg2.qmap_lt, hg2.expq_lt, hg2.anc_lt, ?_, ?_,
-      hg2.anc_nodup, hg2.anc_named⟩, st1.nq_le, st1.inputs_eq, st1.keys_keep, st1.qmap_keep, ?_⟩
+      hg2.anc_nodup, hg2.anc_named, hg2.kept_lt⟩, st1.nq_le, st1.inputs_eq, st1.keys_keep, st1.qmap_keep, ?_⟩
     · intro g hg'
       have hg'' : g ∈ keepRev := by simpa using hg'
       rcases hsub g hg'' with h' | h'
@@ -1445,10 +1511,10 @@ theorem uncompute_ok {B : String → Prop} {r : List Nat} {s s' : CState}
       exact Nat.lt_of_lt_of_le (hg.marked_lt x (List.mem_filter.mp hx).1) st1.nq_le
     · intro n hn hS
       have hS2 := st1.ge_keep n hn hS
-      refine ⟨hS2.1, fun x hx => ?_, fun x hx => hS.2.2 x (List.mem_filter.mp hx).1⟩
+      refine ⟨hS2.1, fun x hx => ?_, fun x hx => hS.2.2.1 x (List.mem_filter.mp hx).1, hS2.2.2.2⟩
       rcases mem_foldl_setIns hx with h' | h'
       · exact hS2.2.1 x h'
-      · exact hS.2.2 x h'
+      · exact hS.2.2.1 x h'
 
 theorem mem_popBarrier {res : List AGate} {g : AGate} (h : g ∈ popBarrier res) : g ∈ res := by
   unfold popBarrier at h
@@ -1505,7 +1571,7 @@ theorem removeIdentities_ok {B : String → Prop} {u : Unit} {s s' : CState}
   obtain ⟨rfl, rfl⟩ := getQC_run hq
   have := modQC_run h1; subst this
   refine Step.of_same ⟨?_, hg.comp_ok, hg.qmap_lt, hg.expq_lt, hg.anc_lt, hg.free_lt, hg.marked_lt,
-    hg.anc_nodup, hg.anc_named⟩ rfl rfl rfl (fun _ h => h)
+    hg.anc_nodup, hg.anc_named, hg.kept_lt⟩ rfl rfl rfl (fun _ h => h)
   intro g hg'
   have hg'' : g ∈ removeIdentitiesList s1.qc.gates.toList := by simpa using hg'
   unfold removeIdentitiesList at hg''
@@ -1553,13 +1619,13 @@ theorem uncomputeAllLoop_ok {B : String → Prop} {keep alreadyFree : List Nat} 
         have := modQC_run hm; subst this
         have hta : g.target ∈ s1.qc.anc := by simpa using hc
         refine rest h2 (Step.of_same ⟨hg.gates_ok, hg.comp_ok, hg.qmap_lt, hg.expq_lt, hg.anc_lt, ?_,
-          hg.marked_lt, hg.anc_nodup, hg.anc_named⟩ rfl rfl rfl ?_)
+          hg.marked_lt, hg.anc_nodup, hg.anc_named, hg.kept_lt⟩ rfl rfl rfl ?_)
         · intro x hx
           rcases mem_setIns hx with hx | rfl
           · exact hg.free_lt x hx
           · exact hg.anc_lt _ hta
         · intro n hS
-          refine ⟨hS.1, fun x hx => ?_, hS.2.2⟩
+          refine ⟨hS.1, fun x hx => ?_, hS.2.2.1, hS.2.2.2⟩
           rcases mem_setIns hx with hx | rfl
           · exact hS.2.1 x hx
           · exact hS.1 _ hta
@@ -1574,12 +1640,40 @@ theorem uncomputeAll_ok {B : String → Prop} {keep : List Nat} {u : Unit} {s s'
   have st1 : Step B s1 s2 := uncomputeAllLoop_ok _ hloop hg
     (fun g hg' => hg.gates_ok g (by simpa using hg'))
   have := modQC_run hm; subst this
-  exact st1.trans (Step.of_same (st1.good.of_eq rfl rfl rfl rfl rfl rfl rfl rfl) rfl rfl rfl (fun _ h => h))
+  exact st1.trans (Step.of_same (st1.good.of_eq rfl rfl rfl rfl rfl rfl rfl rfl rfl) rfl rfl rfl (fun _ h => h))
 
 /-! ### compile -/
 
-theorem compileDefs_ok {B : String → Prop} : ∀ (defs : List (String × BExp)) {u : Unit} {s s' : CState},
-    (compileDefs defs).run s = .ok (u, s') → Good s → (∀ p ∈ defs, B p.1) →
+theorem expqRemoveSymbol_ok {B : String → Prop} {x : String} {u : Unit} {s s' : CState}
+    (h : (expqRemoveSymbol x).run s = .ok (u, s')) (hg : Good s) : Step B s s' := by
+  unfold expqRemoveSymbol at h
+  have := run_modify_ok.mp h; subst this
+  refine Step.of_same ⟨hg.gates_ok, hg.comp_ok, hg.qmap_lt, ?_, hg.anc_lt, hg.free_lt, hg.marked_lt,
+    hg.anc_nodup, hg.anc_named, hg.kept_lt⟩ rfl rfl rfl (fun _ h => h)
+  exact fun p hp => hg.expq_lt p (List.mem_filter.mp hp).1
+
+/-- the end of a statement: release the ancillas, or keep them for `uncompute_all` -/
+theorem stmtEnd_ok {B : String → Prop} {c : Bool} {k : M Unit} {u : Unit} {s s' : CState}
+    (h : StateT.run (if c = true then do
+            let unc ← uncompute
+            expqRemove unc
+            k
+          else do
+            keepAncillas
+            k : M Unit) s = .ok (u, s')) (hg : Good s) :
+    ∃ t, Step B s t ∧ k.run t = .ok (u, s') := by
+  rcases run_ite_ok.mp h with ⟨_, h⟩ | ⟨_, h⟩
+  · obtain ⟨unc, s4, hunc, h4⟩ := run_bind_ok.mp h
+    have st4 : Step B s s4 := uncompute_ok hunc hg
+    obtain ⟨u3, s5, hrem, h5⟩ := run_bind_ok.mp h4
+    have st5 : Step B s4 s5 := expqRemove_ok hrem st4.good
+    exact ⟨s5, st4.trans st5, h5⟩
+  · obtain ⟨u3, s4, hk, h4⟩ := run_bind_ok.mp h
+    exact ⟨s4, keepAncillas_ok hk hg, h4⟩
+
+theorem compileDefs_ok {B : String → Prop} {retBits : Option (List String)} {doUnc : Bool} :
+    ∀ (defs : List (String × BExp)) {u : Unit} {s s' : CState},
+    (compileDefs retBits doUnc defs).run s = .ok (u, s') → Good s → (∀ p ∈ defs, B p.1) →
     Step B s s' ∧ ∀ p ∈ defs, scratchName p.1 = false → (dictGet? s'.qc.qmap p.1).isSome = true
   | [], u, s, s', h, hg, _ => by
     unfold compileDefs at h
@@ -1587,28 +1681,24 @@ theorem compileDefs_ok {B : String → Prop} : ∀ (defs : List (String × BExp)
     exact ⟨Step.refl hg, fun p hp => by cases hp⟩
   | (x, e) :: rest, u, s, s', h, hg, hb => by
     unfold compileDefs at h
-    dsimp only at h
     have hbx : B x := hb (x, e) List.mem_cons_self
     obtain ⟨iret, s1, he, h1⟩ := run_bind_ok.mp h
     obtain ⟨st1, hlt⟩ := exprSpec e none (some x) he hg (by intro d hd; cases hd)
       (by intro y hy; cases hy; exact hbx)
-    obtain ⟨u1, s2, hset, h2⟩ := run_bind_ok.mp h1
-    have st2 : Step B s1 s2 := expqSet_ok hset st1.good hlt
+    obtain ⟨u0, s1', hrs, h1'⟩ := run_bind_ok.mp h1
+    have st1' : Step B s1 s1' := expqRemoveSymbol_ok hrs st1.good
+    obtain ⟨u1, s2, hset, h2⟩ := run_bind_ok.mp h1'
+    have st2 : Step B s1' s2 := expqSet_ok hset st1'.good (Nat.lt_of_lt_of_le hlt st1'.nq_le)
     obtain ⟨u2, s3, hmap, h3⟩ := run_bind_ok.mp h2
-    obtain ⟨st3, hkey⟩ := mapQubit_ok (B := B) hmap st2.good (Nat.lt_of_lt_of_le hlt st2.nq_le) hbx
-      (by intro hp
-          have : x.startsWith "__" = true := by simpa using hp
-          simp [scratchName, this])
-    obtain ⟨unc, s4, hunc, h4⟩ := run_bind_ok.mp h3
-    have st4 : Step B s3 s4 := uncompute_ok hunc st3.good
-    obtain ⟨u3, s5, hrem, h5⟩ := run_bind_ok.mp h4
-    have st5 : Step B s4 s5 := expqRemove_ok hrem st4.good
+    obtain ⟨st3, hkey⟩ := mapQubit_ok (B := B) hmap st2.good
+      (Nat.lt_of_lt_of_le hlt (st1'.trans st2).nq_le) hbx (by intro hp; cases hp)
+    obtain ⟨s5, st5, h5⟩ := stmtEnd_ok (B := B) h3 st3.good
     obtain ⟨st6, hrest⟩ := compileDefs_ok rest h5 st5.good (fun p hp => hb p (List.mem_cons_of_mem _ hp))
-    refine ⟨((((st1.trans st2).trans st3).trans st4).trans st5).trans st6, ?_⟩
+    refine ⟨((((st1.trans st1').trans st2).trans st3).trans st5).trans st6, ?_⟩
     intro p hp hs
     simp only [List.mem_cons] at hp
     rcases hp with rfl | hp
-    · exact ((st4.trans st5).trans st6).keys_keep _ hs (by rw [hkey]; rfl)
+    · exact (st5.trans st6).keys_keep _ hs (by rw [hkey]; rfl)
     · exact hrest p hp hs
 
 theorem addInputs_ok : ∀ (ns : List String) {u : Unit} {s s' : CState},
@@ -1644,23 +1734,23 @@ theorem addInputs_ok : ∀ (ns : List String) {u : Unit} {s s' : CState},
 
 theorem addInputs_scratch : ∀ (ns : List String) {u : Unit} {s s' : CState},
     (addInputs ns).run s = .ok (u, s') →
-    s'.qc.anc = s.qc.anc ∧ s'.qc.free = s.qc.free ∧ s'.qc.marked = s.qc.marked
+    s'.qc.anc = s.qc.anc ∧ s'.qc.free = s.qc.free ∧ s'.qc.marked = s.qc.marked ∧ s'.qc.kept = s.qc.kept
   | [], u, s, s', h => by
     unfold addInputs at h
     obtain ⟨_, rfl⟩ := run_pure_ok.mp h
-    exact ⟨rfl, rfl, rfl⟩
+    exact ⟨rfl, rfl, rfl, rfl⟩
   | n :: ns, u, s, s', h => by
     unfold addInputs at h
     obtain ⟨u1, s1, hd, h1⟩ := run_bind_ok.mp h
     obtain ⟨i0, hadd⟩ := run_discard_ok.mp hd
     have hs1 := (addQubit_run hadd).2
-    obtain ⟨h2, h3, h4⟩ := addInputs_scratch ns h1
-    rw [hs1] at h2 h3 h4
-    exact ⟨h2, h3, h4⟩
+    obtain ⟨h2, h3, h4, h5⟩ := addInputs_scratch ns h1
+    rw [hs1] at h2 h3 h4 h5
+    exact ⟨h2, h3, h4, h5⟩
 
 theorem good_init (cs : List Nat) (inputs : List String) :
     Good { choices := cs, inputs := inputs } :=
-  ⟨by simp, by simp, by simp, by simp, by simp, by simp, by simp, by simp, by simp⟩
+  ⟨by simp, by simp, by simp, by simp, by simp, by simp, by simp, by simp, by simp, by simp⟩
 
 /-- **every successful run of `compile`** ends in a state satisfying the invariant; names outside
 the definitions' left-hand sides that are not reserved keep the qubit `addInputs` gave them,
@@ -1681,7 +1771,7 @@ theorem compile_ok {inputs : List String} {defs : List (String × BExp)} {ret : 
   obtain ⟨u1, s1, hin, h2⟩ := run_bind_ok.mp h1
   obtain ⟨st1, hn1, _, hpos⟩ := addInputs_ok inputs hin hg0
   obtain ⟨u2, s2, hdefs, h3⟩ := run_bind_ok.mp h2
-  obtain ⟨st2, hkeys⟩ := compileDefs_ok (B := (· ∈ defs.map (·.1))) defs hdefs st1.good
+  obtain ⟨st2, hkeys⟩ := compileDefs_ok (B := (· ∈ defs.map (·.1))) (retBits := ret) (doUnc := unc) defs hdefs st1.good
     (fun p hp => List.mem_map.mpr ⟨p, hp, rfl⟩)
   obtain ⟨u3, s3, hrem, h4⟩ := run_bind_ok.mp h3
   have st3 : Step (· ∈ defs.map (·.1)) s2 s3 := removeIdentities_ok hrem st2.good
@@ -1698,12 +1788,13 @@ theorem compile_ok {inputs : List String} {defs : List (String × BExp)} {ret : 
       · obtain ⟨_, rfl⟩ := run_pure_ok.mp h4; exact Step.refl st3.good
   have st234 := (st2.trans st3).trans st4
   have hn1' : s1.qc.numQubits = inputs.length := by rw [hn1]; simp
-  obtain ⟨ha1, hf1, hm1⟩ := addInputs_scratch inputs hin
+  obtain ⟨ha1, hf1, hm1, hk1⟩ := addInputs_scratch inputs hin
   have hS1 : ScratchGe inputs.length s1 := by
-    refine ⟨?_, ?_, ?_⟩
+    refine ⟨?_, ?_, ?_, ?_⟩
     · rw [ha1]; intro a ha; cases ha
     · rw [hf1]; intro a ha; cases ha
     · rw [hm1]; intro a ha; cases ha
+    · rw [hk1]; intro a ha; cases ha
   refine ⟨st4.good, by rw [← hn1']; exact st234.nq_le, ?_, ?_,
     st234.ge_keep _ (Nat.le_of_eq hn1'.symm) hS1⟩
   · intro p hp hs
